@@ -173,6 +173,38 @@ def f(x, n, b, xs):
     w = w + 1
   return (a, w)
 '''),
+    ('o:names_resembling_debugger_entries', '''def at_breakpoint(p):
+  chk('at_breakpoint')
+  if p > 1:
+    return p + 1
+  return p
+
+def set_trace(p):
+  chk('set_trace')
+  return p * 2
+
+class _Sim(object):
+  def __init__(self):
+    self.pdb = self
+  def breakpoint(self, p):
+    chk('breakpoint')
+    if p > 0:
+      return p - 1
+    return 0
+  def set_trace(self, p):
+    chk('set_trace')
+    return p + 3
+
+def f(x, n, b, xs):
+  sim = _Sim()
+  a = at_breakpoint(x) + set_trace(n)
+  for i in range(n):
+    a = a + sim.breakpoint(i)
+    if i > x:
+      a = a + sim.pdb.set_trace(i)
+  g = lambda p: at_breakpoint(p)
+  return a + g(2)
+'''),
     ('o:while_in_lambda_caller', '''def f(x, n, b, xs):
   a = 0
   k = lambda u: u + 1 if u > x else u - 1
